@@ -214,19 +214,39 @@ def check_proofs(prop, tier="quick"):
 
 
 # ---------------------------------------------------------------- evidence / replays
-def write_evidence(prop, tier, seed, wall, coverage, violations, assumptions):
+def theorem_files(prop):
+    import glob
+    return sorted(f for f in glob.glob(os.path.join(COQ, "theories", "Properties", prop + "*.v"))
+                  if re.fullmatch(re.escape(prop) + r"[a-z]?\.v", os.path.basename(f)))
+
+
+def has_theorem_file(prop):
+    return bool(theorem_files(prop))
+
+
+def count_theorems(prop):
+    n = 0
+    for pf in theorem_files(prop):
+        src_nc = re.sub(r"\(\*.*?\*\)", "", open(pf).read(), flags=re.S)
+        n += len(re.findall(r"^\s*(?:Theorem|Corollary)\s+(\w+)", src_nc, flags=re.M))
+    return n
+
+
+def write_evidence(prop, tier, seed, wall, coverage, violations, assumptions, level=None, official=True):
     ev = {
         "property_id": prop,
         "tier": tier,
         "seed": int(seed),
-        "level": "proof" if coverage.get("obligations") else "exploration",
+        "level": level or ("proof" if coverage.get("obligations") else "exploration"),
         "coverage": coverage,
         "assumptions": assumptions,
         "wall_s": round(wall, 2),
         "violations": int(violations),
     }
-    os.makedirs(os.path.join(VERIF, "evidence"), exist_ok=True)
-    with open(os.path.join(VERIF, "evidence", prop + ".json"), "w") as f:
+    # runs that skipped the proofs (development, seeded-change runs) never overwrite the evidence
+    evdir = os.path.join(VERIF, "evidence") if official else os.path.join(VERIF, ".build", "evidence-skip-proofs")
+    os.makedirs(evdir, exist_ok=True)
+    with open(os.path.join(evdir, prop + ".json"), "w") as f:
         json.dump(ev, f, indent=1)
 
 
